@@ -15,17 +15,21 @@ def tree_stage(ctx):
         bs = [json.load(open(ctx.replay))["detail"]["behaviour"]]
     else:
         r = ctx.model_check("chain", "MC_BlockTree", "MC_BlockTree.cfg",
-                            constants=dict(MaxHandles=ctx.pick(3, 4), MaxOps=ctx.pick(6, 7), Misuse=misuse, Race=race),
+                            constants=dict(MaxHandles=ctx.pick(3, 4), MaxOps=ctx.pick(6, 7), Misuse=misuse, Race=race, Quiet="FALSE"),
                             coverage=True, timeout=ctx.pick(600, 1800))
         ctx.check_coverage(r, ["Extend", "ExtendCancelled", "Finalize", "Dispose", "Dup", "CancelLate", "GetLast", "GetByHeight",
                                "GetBlock", "WaitFor"], allow_zero=tuple(([] if misuse == "TRUE" else ["DisposeAgain"]) + ([] if race == "TRUE" else ["ExtendRaced"])))
         d = ctx.pick(2, 3)
         bs = ctx.behaviours("chain", "Gen_BlockTree", "Gen_BlockTree.cfg",
-                            constants=dict(MaxHandles=4, MaxOps=d, Depth=d, Misuse=misuse, Race=race), timeout=900)
+                            constants=dict(MaxHandles=4, MaxOps=d, Depth=d, Misuse=misuse, Race=race, Quiet="FALSE"), timeout=900)
         wl = ctx.pick(10, 16)
         walks = ctx.behaviours("chain", "Gen_BlockTree", "Gen_BlockTree.cfg",
-                               constants=dict(MaxHandles=ctx.pick(5, 6), MaxOps=wl, Depth=wl, Misuse=misuse, Race=race),
+                               constants=dict(MaxHandles=ctx.pick(5, 6), MaxOps=wl, Depth=wl, Misuse=misuse, Race=race, Quiet="FALSE"),
                                simulate="num=%d" % ctx.pick(250, 3000), depth=wl + 2, seed=ctx.seed, timeout=900)
+        # walks of tree-changing calls only: they build and prune deeper trees (branches with children are discarded)
+        walks += ctx.behaviours("chain", "Gen_BlockTree", "Gen_BlockTree.cfg",
+                                constants=dict(MaxHandles=ctx.pick(6, 7), MaxOps=wl, Depth=wl, Misuse=misuse, Race=race, Quiet="TRUE"),
+                                simulate="num=%d" % ctx.pick(150, 2000), depth=wl + 2, seed=ctx.seed + 7, timeout=900)
         ctx.sample([dict(op=s["op"], res=s.get("res"), p=s.get("p"), v=s.get("v"), h=s.get("h")) for s in walks[0]][:8])
         bs = bs + walks
     inp = ctx.path("in", "tree.ndjson")
